@@ -154,6 +154,16 @@ def _gates(tier):
     for fl, nm in ((4, "system"), (5, "user"), (6, "system-virtual-disk"), (7, "user-virtual-disk")):
         yield dict(name=f"vhdx.unknown_required_metadata_item.{nm}", kind="single", seed_ok=lambda fl=fl: vhdx_items([fl & 3]),
                    fault=lambda fl=fl: vhdx_items([fl]))
+    # an unknown required item and an optional twin with the same ItemId in the other (user / system) id space, in both orders
+    def vhdx_twins(flags_pair):
+        G = bytes(range(0x90, 0xA0))
+        im = BX.build([DATA, 0], [0, None], extra_items=[("last", G, b"\x00" * 8, fl) for fl in flags_pair])
+        return _open_vhdx_sparse(im.sparse(log=False))
+
+    for pair, nm in (((4, 1), "required-system-then-optional-user"), ((1, 4), "optional-user-then-required-system"),
+                     ((5, 0), "required-user-then-optional-system"), ((0, 5), "optional-system-then-required-user")):
+        yield dict(name=f"vhdx.unknown_required_metadata_item.twin.{nm}", kind="single",
+                   seed_ok=lambda pair=pair: vhdx_twins([f & 3 for f in pair]), fault=lambda pair=pair: vhdx_twins(list(pair)))
     # ---- VHDX differencing images: locator type, parent present, parent reachable at all
     cimg = BX.build([0, DATA], [None, 0], layer=2, parent=[("relative_path", ".\\base.vhdx"), ("parent_linkage", "{x}")])
     loc_off = [f for f in cimg.fields if f[0] == "parent_locator.type"][0][1]
